@@ -11300,6 +11300,73 @@ func ruleConditionalTargetAssignmentsHaveElse(c *core.Ctx) {
 				}
 				c.Check(badAt == token.NoPos, rule, key, at, "closed by `} else {` on every path of the generator: the target is assigned on both branches",
 					"the printed `if` assigns the target only when its condition holds and is closed by a bare `}` (on at least one path of the generator): on the other branch the object the caller reuses for every item of a stream keeps the value of the previous item")
+				// the else branch itself: where the print that follows directly is `} else {` and the next statement is the
+				// indented else body, that body prints something on EVERY path of the generator (a helper that returns
+				// early under a flag prints an empty else: the target keeps the previous item's value on that branch)
+				if badAt == token.NoPos && i+3 < len(list) {
+					if l3, _, ok3 := emitLit(info, list[i+2]); ok3 && strings.HasPrefix(strings.TrimSpace(l3), "} else") {
+						if es2, ok := list[i+3].(*ast.ExprStmt); ok {
+							if ind2, ok := es2.X.(*ast.CallExpr); ok && strings.HasSuffix(types.ExprString(ind2.Fun), "Indented") && len(ind2.Args) == 1 {
+								if fl, ok := ind2.Args[0].(*ast.FuncLit); ok {
+									var always func(body []ast.Stmt, depth int) bool
+									always = func(body []ast.Stmt, depth int) bool {
+										for _, s := range body {
+											if _, _, ok := emitLit(info, s); ok {
+												return true
+											}
+											switch x := s.(type) {
+											case *ast.ExprStmt:
+												if ce, ok := x.X.(*ast.CallExpr); ok {
+													if core.NoReturn(info, ce) {
+														return true
+													}
+													f := core.Callee(info, ce)
+													if f == nil {
+														return true // a call that is not understood counts as printing
+													}
+													if f.Pkg() == p.Types {
+														if self != nil && f.Origin() == self {
+															return true
+														}
+														if hd := c.Decl(f); hd != nil && hd.Body != nil && depth < 2 {
+															if always(hd.Body.List, depth+1) {
+																return true
+															}
+															return false
+														}
+													}
+													return true
+												}
+											case *ast.IfStmt:
+												thenOK := always(x.Body.List, depth)
+												elseOK := false
+												if eb, ok := x.Else.(*ast.BlockStmt); ok {
+													elseOK = always(eb.List, depth)
+												}
+												if thenOK && elseOK {
+													return true
+												}
+												if bodyLeaves(x.Body) && !thenOK {
+													return false
+												}
+											case *ast.BlockStmt:
+												if always(x.List, depth) {
+													return true
+												}
+											case *ast.ReturnStmt:
+												return false
+											}
+										}
+										return false
+									}
+									n++
+									c.Check(always(fl.Body.List, 0), rule, key+"/else assigns", list[i+3].Pos(), "the else body prints an assignment (or throws) on every path of the generator",
+										"the printed `} else {` is followed by a body that prints nothing on some path of the generator (a helper that returns early under a flag): on that path the emitted else branch is empty and the reused target keeps the previous item's value — `write` is not the I/O direction inside writeTypeConversion (the inverse change kinds call it with !write)")
+								}
+							}
+						}
+					}
+				}
 			}
 			for _, s := range list {
 				ast.Inspect(s, func(m ast.Node) bool {
